@@ -7,7 +7,10 @@ Check (C04_exact : forall msg ty rd m c c' d,
   orig c = None /\ pos c' = pos c + rd /\ lim c' = lim c /\ orig c' = None /\ pos c + rd <= lim c).
 Check (C04_noninterference : forall L m1 m2, agree L m1 m2 -> forall ty rd c, pos c + rd <= L ->
   match read_rdata m1 ty rd, read_rdata m2 ty rd with
-  | Some f1, Some f2 => f1 c = f2 c | None, None => True | _, _ => False end).
+  | Some f1, Some f2 => f1 c = f2 c
+  | None, None => True
+  | _, _ => False
+  end).
 Check (C04_raw : forall msg c n off bs c',
   c_slice msg c n = Ok (off, bs, c') ->
   off = pos c /\ bs = subN msg (pos c) n /\ lenN bs = n /\ pos c' = pos c + n /\ pos c + n <= lim c).
